@@ -7,3 +7,7 @@ import Gomjml.Props.C18
 #print axioms Gomjml.Props.C18.C18_strip_whitespace
 #print axioms Gomjml.Props.C18.C18_xml_escapes_left_alone
 #print axioms Gomjml.Props.C18.C18_prolog_ignored
+#print axioms Gomjml.Props.C18.C18_bare_amp_like_escaped
+#print axioms Gomjml.Props.C18.C18_named_entity_replaced
+#print axioms Gomjml.Props.C18.C18_named_entities_are_their_characters
+#print axioms Gomjml.Props.C18.C18_tree_complete
